@@ -177,6 +177,71 @@ func vfRunCoreScript(env *vfEnv, prop string, caseNo int, prof *vfProfile, value
 		}
 		sh.stats["scripts_long_queue"]++
 	}
+	if prof.LongTable && rng.Chance(30) {
+		// requests that are re-checked more than 8 times move to the long-wait
+		// tables (after ~37-45 s); here several of them share one deadline second
+		// and some leave the table (grant, cancellation, shortening update) while
+		// the others stay
+		sh.stats["scripts_long_table"]++
+		if rng.Chance(50) {
+			// waiters
+			runTop(vfOp{Kind: "lock", Client: 0, Key: 0, LockId: 1990, Count: 0, Expried: 300, Timeout: 0})
+			n := rng.Range(2, 4)
+			T := uint16(rng.Range(45, 62))
+			for i := 0; i < n; i++ {
+				runTop(vfOp{Kind: "lock", Client: rng.Intn(4), Key: 0, LockId: 3500 + i, Count: 0, Expried: uint16(rng.Range(2, 40)), Timeout: T})
+				if rng.Chance(20) {
+					runTop(vfOp{Kind: "tick", Ticks: 1})
+				}
+			}
+			for t := 0; t < int(T)-rng.Range(2, 9); t++ {
+				runTop(vfOp{Kind: "tick", Ticks: 1})
+				if rng.Chance(4) {
+					runTop(gen.next())
+				}
+			}
+			switch rng.Intn(3) {
+			case 0: // the holder leaves: the first waiter is granted while it sits in the table
+				runTop(vfOp{Kind: "unlock", Client: 0, Key: 0, LockId: 1990})
+			case 1: // a waiter is cancelled
+				runTop(vfOp{Kind: "unlock", Client: rng.Intn(4), Key: 0, LockId: 3500 + rng.Intn(n), Flag: protocol.UNLOCK_FLAG_CANCEL_WAIT_LOCK_WHEN_UNLOCKED})
+			default:
+				runTop(vfOp{Kind: "unlock", Client: rng.Intn(4), Key: 0, LockId: 3500, Flag: protocol.UNLOCK_FLAG_CANCEL_WAIT_LOCK_WHEN_UNLOCKED})
+				runTop(vfOp{Kind: "unlock", Client: 0, Key: 0, LockId: 1990})
+			}
+			for t := 0; t < 14; t++ {
+				runTop(vfOp{Kind: "tick", Ticks: 1})
+			}
+		} else {
+			// holds: some with the persist-immediately flag (long table at once), some migrating after ~40 s
+			n := rng.Range(1, 3)
+			E := uint16(rng.Range(50, 70))
+			for i := 0; i < n; i++ {
+				op := vfOp{Kind: "lock", Client: rng.Intn(4), Key: 0, LockId: 3600 + i, Count: 0xffff, Expried: E, Timeout: 0}
+				if rng.Chance(40) {
+					op.EFlag |= protocol.EXPRIED_FLAG_ZEOR_AOF_TIME
+				}
+				runTop(op)
+			}
+			for t := 0; t < rng.Range(2, 46); t++ {
+				runTop(vfOp{Kind: "tick", Ticks: 1})
+			}
+			// an update that shortens (or lengthens) the expiry of one of them, a re-lock of another
+			for i := 0; i < n; i++ {
+				switch rng.Intn(4) {
+				case 0:
+					runTop(vfOp{Kind: "lock", Client: rng.Intn(4), Key: 0, LockId: 3600 + i, Count: 0xffff, Expried: uint16(rng.Range(2, 6)), Flag: protocol.LOCK_FLAG_UPDATE_WHEN_LOCKED})
+				case 1:
+					runTop(vfOp{Kind: "lock", Client: rng.Intn(4), Key: 0, LockId: 3600 + i, Count: 0xffff, Expried: uint16(rng.Range(80, 120)), Flag: protocol.LOCK_FLAG_UPDATE_WHEN_LOCKED})
+				case 2:
+					runTop(vfOp{Kind: "lock", Client: rng.Intn(4), Key: 0, LockId: 3600 + i, Count: 0xffff, Rcount: 3, Expried: uint16(rng.Range(2, 30))})
+				}
+			}
+			for t := 0; t < 16; t++ {
+				runTop(vfOp{Kind: "tick", Ticks: 1})
+			}
+		}
+	}
 	aofBroken := false
 	failScript := rng.Chance(10) // log-write failures are injected in a tenth of the scripts
 	for i := 0; i < steps; i++ {
@@ -394,6 +459,7 @@ func vfCoreProps() map[string]*vfCoreProp {
 		Floors:     []string{"grants_from_queue", "scripts_long_queue", "timeouts", "cancels"}}
 	p = base
 	p.Name = "c05"
+	p.LongTable = true
 	p.WaitHeavy = true
 	p.BigTime = 10
 	p.TickPct = 35
@@ -403,6 +469,7 @@ func vfCoreProps() map[string]*vfCoreProp {
 		Floors:     []string{"timeouts_timed", "timeouts_long_table", "immediate_timeouts"}}
 	p = base
 	p.Name = "c06"
+	p.LongTable = true
 	p.BigTime = 10
 	p.TickPct = 35
 	p.UpdatePct = 12
